@@ -146,18 +146,20 @@ static void check_continue(void)
 		if (in_state != 12) CHECK("C12", g_nev == 0, "skipping performs no lookup, store, callback or release");
 		else CHECK("C12", g_nev <= 1 && (g_nev == 0 || g_ev[0].kind == EV_RECURSE), "skipping performs no action except entering the discarding sub-parser");
 		CHECK("C12,C06", g_diag == g_diag0, "a skipping step that continues delivers no diagnostic");
+		CHECK("C07,C02,C12,C15", *p_comment == NULL || __CPROVER_r_ok(*p_comment, 1), "a pending annotation is a live block (never a released one)");
 		CHECK("C01,C02,C07", inv(*p_state, *p_opt, *p_comment, *p_opttitle, *p_ignore, *p_num_values, p_funcopt), "INV: the loop invariant holds again at the loop head");
 		return;
 	}
-	CHECK("C01,C12", g_so.outcome == SP_CONT, "the parse continues exactly when the reference automaton continues");
+	CHECK("C01,C12,C04,C05,C14,C18", g_so.outcome == SP_CONT, "the parse continues exactly when the reference automaton continues");
 	if (g_so.outcome != SP_CONT) return;
-	CHECK("C01,C12", *p_state == g_so.next_state, "the next parser state is the reference one");
+	CHECK("C01,C12,C05", *p_state == g_so.next_state, "the next parser state is the reference one");
 	CHECK("C01", *p_opt == want_opt, "the option being processed is the one the name resolved to (or the created key)");
-	CHECK("C01", *p_num_values == g_so.next_num_values, "the count of list elements read so far is exact");
+	CHECK("C01,C05", *p_num_values == g_so.next_num_values, "the count of list elements read so far is exact");
 	if (g_so.next_state == 13) CHECK("C12", *p_ignore == g_so.next_ignore, "the skipper waits for the right closing token");
 	CHECK("C15,C07", g_so.comment_after == 0 ? *p_comment == NULL : g_so.comment_after == 1 ? *p_comment == h_comment : (*p_comment != NULL && *p_comment != in_text && *p_comment != h_comment && strcmp(*p_comment, in_text) == 0),
 	      "the pending annotation is kept, consumed or replaced by a private copy of the comment text as the language prescribes");
 	check_actions(); check_diags(); check_flags();
+	CHECK("C07,C02,C12,C15", *p_comment == NULL || __CPROVER_r_ok(*p_comment, 1), "a pending annotation is a live block (never a released one)");
 	CHECK("C01,C02,C07", inv(*p_state, *p_opt, *p_comment, *p_opttitle, *p_ignore, *p_num_values, p_funcopt), "INV: the loop invariant holds again at the loop head");
 }
 
@@ -316,8 +318,8 @@ void h_parse_step(void)
 			CHECK("C12", rc == STATE_ERROR || g_diag == 0, "handing back to the caller delivers no diagnostic");
 			if (in_state != 12) CHECK("C12", g_nev == 0, "skipping performs no lookup, store, callback or release");
 		} else {
-			CHECK("C01,C12", g_so.outcome != SP_CONT, "the parse ends exactly when the reference automaton ends it");
-			CHECK("C01,C06", rc == (g_so.outcome == SP_RET_EOF ? STATE_EOF : g_so.outcome == SP_RET_CONTINUE ? STATE_CONTINUE : STATE_ERROR), "the verdict (accepted / rejected / sub-section skipped) is the reference one");
+			CHECK("C01,C12,C04,C05,C14,C18", g_so.outcome != SP_CONT, "the parse ends exactly when the reference automaton ends it");
+			CHECK("C01,C06,C04,C05", rc == (g_so.outcome == SP_RET_EOF ? STATE_EOF : g_so.outcome == SP_RET_CONTINUE ? STATE_CONTINUE : STATE_ERROR), "the verdict (accepted / rejected / sub-section skipped) is the reference one");
 			if (g_so.outcome != SP_CONT) { check_actions(); check_diags(); }
 		}
 		CHECK("C01,C12", in_force == 10 ? rc != STATE_EOF : rc != STATE_CONTINUE, "result range: a section body / top level never answers 'continue', the discarding sub-parser never answers 'end of section'");
